@@ -285,7 +285,7 @@ PruneStatsOK ==
         /\ st.size_unref      = MapThenSumSet(PackSize, unref)
         /\ st.size_total      = SumLen(preE) + MapThenSumSet(PackSize, unref)
         /\ st.packs_unref     = Cardinality(unref)
-        /\ st.packs_total     = Cardinality(PacksOf(preE) \cup DOMAIN P.packs)
+        /\ st.packs_total     = Cardinality(DOMAIN P.packs)          \* pack files present (indexed or not)
         /\ (PacksOf(preE) \subseteq DOMAIN P.packs) =>
               st.packs_keep + st.packs_repack + st.packs_remove = Cardinality(PacksOf(preE))
         \* what the run actually did (not a dry run, run completed)
